@@ -55,6 +55,7 @@ def tune_c01(rng, k):
     if rng.random() < 0.35:
         k["settings"] = {"enteringExcludedRegionGcode": gen.rand_script(rng, "ENTER"),
                          "exitingExcludedRegionGcode": gen.rand_script(rng, "EXIT")}
+    k["silent_abort"] = rng.random() < 0.3
     if rng.random() < 0.4:
         k["wipe"] = 0.3
     if rng.random() < 0.3:
@@ -75,6 +76,8 @@ def tune_c02(rng, k):
     k["p_abort"] = 0.1
     if rng.random() < 0.3:
         k["double_retract"] = 0.3
+    if rng.random() < 0.35:
+        k["w"]["upload"] = 4            # an upload is filtered offline while the print goes on
     if mode == "clear" and rng.random() < 0.5:
         # disable ... enable brackets inside a clear-path program: still nothing may be altered, but the
         # decisions after re-enabling depend on the position tracked while exclusion was off
@@ -95,6 +98,11 @@ def tune_c03(rng, k):
     k["p_extrude_z"] = 0.3
     k["w"]["at_noop"] = 0
     if rng.random() < 0.3:
+        k["w"]["at_switch"] = 1.5
+        k["after_enable_moves"] = True
+    if rng.random() < 0.3:
+        k["w"]["rehome"] = 1.0
+    if rng.random() < 0.3:
         k["wipe"] = 0.3
     if rng.random() < 0.3:
         k["double_retract"] = 0.3
@@ -111,6 +119,9 @@ def tune_c04(rng, k):
     k["w"]["region_add"] = 4
     k["may_shrink"] = rng.random() < 0.5
     k["w"]["region_shrink"] = 2
+    if rng.random() < 0.25:
+        k["tiny_e"] = 0.3
+        k["w"]["g92e"] = 6
 
 
 tune_c05 = tune_c04
@@ -123,6 +134,8 @@ def tune_c07(rng, k):
     k["tiny_e"] = 0.3
     k["tiny_z"] = 0.4
     k["huge"] = rng.choice([0, 0, 0.02])
+    k["w"]["g92e"] = rng.choice([2, 6, 10])
+    k["w"]["other"] = 10
     k["p_special"] = 0.2
     k["axes_w"] = [35, 12, 12, 21, 20]
     k["nops"] = rng.choice([30, 60, 120, 250, 400])
@@ -146,6 +159,7 @@ def tune_c06(rng, k):
     k["aim_w"] = [45, 5, 10, 40]
     k["p_end_inside"] = 0.4
     k["p_abort"] = 0.3
+    k["silent_abort"] = rng.random() < 0.5
     k["prints"] = rng.choice([1, 2, 3])
     k["w"]["mode"] = 0
     k["w"]["units"] = 0
@@ -200,6 +214,7 @@ def tune_c15(rng, k):
     k["w"]["g92xyz"] = 0
     k["aim_w"] = [45, 5, 10, 40]
     k["p_abort"] = 0.3
+    k["silent_abort"] = rng.random() < 0.3
     if rng.random() < 0.5:
         k["w"]["settings_change"] = 1.5
         k["settings_anytime"] = True
@@ -261,7 +276,8 @@ class ApiCheck(object):
         from .worlds.apiworld import ApiWorld
         w = ApiWorld(cfg, self.prop)
         v = w.run(schedule)
-        inter = "".join({"api": "A", "api_get": "G", "event": "E", "settings": "S"}[op["op"]] for op in schedule)
+        inter = "".join({"api": "A", "api_get": "G", "event": "E", "settings": "S", "at": "@", "gcode": "g"}[op["op"]]
+                        for op in schedule)
         return {"violation": v, "digest": w.digest(), "stats": w.stats, "abs_states": w.abs_states,
                 "ncalls": len(schedule), "sim_time": 0.0, "interleaving": hash_str(inter)}
 
@@ -398,12 +414,18 @@ class RestartCheck(object):
         k2["p_abort"] = 0.2
         k2["p_end_inside"] = 0.3
         k2["wipe"] = rng.choice([0, 0.3])
+        k2["w"]["arc"] = rng.choice([0, 4, 8])
         regions = {} if cfg["settings"].get("clearRegionsAfterPrintFinishes") else g1.regions
         _c2, ops2 = gen.gen_print_schedule(rng, "C10", k2, regions=regions, nid=g1.nid + 100)
         ops2 = [op for op in ops2 if op["op"] != "print_start"]
         if rng.random() < 0.2:
             ops2 = [op for op in ops2 if op["op"] != "home"]
         ops2 = prerender(cfg, ops2, g90e=cfg["g90e"])
+        if rng.random() < 0.35:
+            # a file that relies on the defaults: no explicit G21 / G90 at its start
+            head = [i for i, op in enumerate(ops2[:6]) if op["op"] == "line" and op["text"] in ("G21", "G90")]
+            ops2 = [op for i, op in enumerate(ops2) if i not in head]
+            k2["w"]["arc"] = 6
         out = []
         for op in ops2:
             if op["op"] == "abort":
@@ -459,6 +481,8 @@ class TwinCheck(object):
             k["arc_margin"] = True
         k["numstyle"] = None
         k["compact"] = False
+        if kind in ("inch", "rel") and rng.random() < 0.4:
+            k["w"]["rehome"] = 1.5      # G28 (full or partial) in the middle of the job, outside episodes
         cfg, ops = gen.gen_print_schedule(rng, "C08", k)
         enc = {"kind": kind, "from": rng.randrange(0, max(1, len(ops)))}
         if kind == "g92":
